@@ -54,6 +54,7 @@ class Interp:
         self.fns_encoded = {}       # fn name -> blocks
         self.nfid = 0
         self.frames = {}
+        self.lenient = set()
         self.bounds = {}           # uninterpreted symbol / function name -> (lb, ub): must be implied by the path condition
         self.named_consts = {}
         self.frame_env = {}        # fid -> {type parameter: instantiation text}
@@ -164,6 +165,12 @@ class Interp:
                     return self._closure_value(ty, [], fn)
                 if ty == '()':
                     return unit()
+                if key[0] in self.lenient:
+                    if ty == 'bool':        # e.g. drop flags of the code that was cut away: irrelevant, any value
+                        v = self.fresh_bool('unset_' + key[1])
+                        st.store[key] = v
+                        return v
+                    return Opaque('unset:%s' % key[1])
             raise Inconclusive('read of unset location %r' % (key,))
         return st.store[key]
 
@@ -596,6 +603,24 @@ class Interp:
         self.fns_encoded[fn.name] = len(fn.blocks)
         self.stats['calls_interpreted'] += 1
         self.exec_from(fn, fid, 'bb0', st, cont, depth, [0])
+
+    def run_from(self, fn, bb, locals_, st, cont, depth=0):
+        """interpret fn starting at basic block `bb` with the given locals (kernel slices of large functions); locals that
+        were not provided read as opaque values, so any decision that depends on them is INCONCLUSIVE"""
+        self.nfid += 1
+        fid = self.nfid
+        self.frames[fid] = fn
+        self.lenient.add(fid)
+        for k, v in locals_.items():
+            st.store[(fid, k)] = v
+        self.fns_encoded[fn.name + ' [slice from %s]' % bb] = len(fn.blocks)
+        # the slice starts at the terminator of `bb` (the statements before it belong to the code that is cut away)
+        saved = parsed_block(fn, bb)
+        fn.parsed[bb] = ((), saved[1])
+        try:
+            self.exec_from(fn, fid, bb, st, cont, depth, [0])
+        finally:
+            fn.parsed[bb] = saved
 
     def exec_from(self, fn, fid, bb, st, cont, depth, fuel):
         try:
